@@ -117,12 +117,30 @@ def oksMatrix (exp : R → R) (coco : Bool) (eps : R) (sds : List R)
     (gts : List (Option R × List (Pt R))) (prs : List (List (Pt R))) : List (List (Option R)) :=
   gts.map (fun g => prs.map (fun p => oksPair exp coco eps sds g.1 g.2 p))
 
-/-- the code as it is on the pinned tree: `ks[np.expand_dims(missing_gt, 1)] = 0` indexes a
-`(n_gt, n_pr, n_nodes)` array with a `(n_gt, 1, n_nodes)` boolean mask, which numpy rejects
-(`IndexError`) unless `n_pr = 1` (`none` = raise; F-C15b) -/
-def oksMatrixAsIs (exp : R → R) (coco : Bool) (eps : R) (sds : List R)
+/-- **Historical (regression record only, not HEAD).**  The tree before 8197f2d: `ks[np.expand_dims(
+missing_gt, 1)] = 0` indexed a `(n_gt, n_pr, n_nodes)` array with a `(n_gt, 1, n_nodes)` boolean mask,
+which numpy rejects (`IndexError`) unless `n_pr = 1` (`none` = raise; F-C15b, fixed).  HEAD is
+`oksMatrix`. -/
+def oksMatrixBeforeFix (exp : R → R) (coco : Bool) (eps : R) (sds : List R)
     (gts : List (Option R × List (Pt R))) (prs : List (List (Pt R))) : Option (List (List (Option R))) :=
   if prs.length = 1 then some (oksMatrix exp coco eps sds gts prs) else none
+
+/-- One entry of `compute_oks` with the exact part (squared distances, bbox area, normalisation, the
+argument of `exp`) computed in a carrier `Q` and only `exp`, the sum and the division in `R`
+(`toR : Q → R`).  The driver's `oksr` op runs it at `Q = Rat`, `R = Float`; for `Q = R`, `toR = id`
+it is `oksPair` (`oksPairMixed_eq`). -/
+def oksPairMixed {Q : Type} [Add Q] [Sub Q] [Mul Q] [Div Q] [Neg Q] [LT Q] [DecidableLT Q]
+    [OfNat Q 0] [OfNat Q 1] [OfNat Q 2] (toR : Q → R) (exp : R → R) (coco : Bool) (eps : Q)
+    (sds : List Q) (scale : Option Q) (g p : List (Pt Q)) : Option R :=
+  match scaleOf scale g with
+  | none => none
+  | some s =>
+    let nodes := mkNodes sds g p
+    if nVis nodes = 0 then none
+    else some (sumR (nodes.map (fun n => match ksArg coco eps s n with
+        | some x => exp (toR x)
+        | none => (0 : R))) /
+      sumR (nodes.map (fun n => if isVis n.g then (1 : R) else 0)))
 
 /-- A *history* of `compute_oks` calls: each call sees only its own arguments.  In the model this
 is a `map`; that the real function behaves like one (does not modify its argument arrays, keeps no
@@ -172,19 +190,36 @@ def matchLoop {G P : Type} (oks : G → P → Option R) (thr : R) :
           let r := matchLoop oks thr ps ((a :: as).eraseIdx i)
           ((g, p, v) :: r.1, r.2)
 
-/-- `match_instances` with F-C15 repaired (no gt ⇒ no pairs, no misses): returns
-`(positive_pairs, false_negatives)` -/
+/-- `match_instances` (HEAD: no gt ⇒ no pairs, no misses) for a prediction frame that holds only
+`PredictedInstance`s: returns `(positive_pairs, false_negatives)` -/
 def matchInstances {G P : Type} (oks : G → P → Option R) (score : P → R) (thr : R)
     (gts : List G) (prs : List P) : List (G × P × R) × List G :=
   matchLoop oks thr (sortDesc score prs) gts
 
-/-- the code as it is on the pinned tree: `np.stack([])` raises `ValueError` when the gt frame
-is empty and at least one prediction exists (`none` = raise) -/
-def matchInstancesAsIs {G P : Type} (oks : G → P → Option R) (score : P → R) (thr : R)
+/-- **Historical (regression record only, not HEAD).**  The tree before 6b9ee84: `np.stack([])`
+raised `ValueError` when the gt frame was empty and at least one prediction existed (`none` = raise;
+F-C15, fixed).  HEAD is `matchInstances`. -/
+def matchInstancesBeforeFix {G P : Type} (oks : G → P → Option R) (score : P → R) (thr : R)
     (gts : List G) (prs : List P) : Option (List (G × P × R) × List G) :=
   match gts, prs with
   | [], _ :: _ => none
   | _, _ => some (matchInstances oks score thr gts prs)
+
+/-- `match_instances` **as it is on HEAD** for a prediction frame that may also hold user `Instance`s
+(`score p = none`): `scores_pr` is built from the instances that have a `.score` only, but the
+resulting `argsort` indices are used on the *unfiltered* list — the loop visits
+`frame_pr[idx]` for `idx` in the score order of the first `k` positions, `k` = number of scored
+instances (F-C16d).  With every `score p = some _` this is `matchInstances` (`matchMixed_eq`). -/
+def matchInstancesMixed {G P : Type} (oks : G → P → Option R) (score : P → Option R) (thr : R)
+    (gts : List G) (prs : List P) : List (G × P × R) × List G :=
+  let fs := prs.filterMap score
+  let order := sortDesc (fun i => fs.getD i thr) (List.range fs.length)
+  matchLoop oks thr (order.filterMap (fun i => prs[i]?)) gts
+
+/-- the repair (fixes/C16-mixed-prediction-frame.patch): user instances in a prediction frame are ignored -/
+def matchInstancesMixedFixed {G P : Type} (oks : G → P → Option R) (score : P → Option R) (thr : R)
+    (gts : List G) (prs : List P) : List (G × P × R) × List G :=
+  matchInstances oks (fun p => (score p).getD thr) thr gts (prs.filter (fun p => (score p).isSome))
 
 /-- matrix look-up used by the drivers (`G = P = Nat`) -/
 def lookup (m : List (List (Option R))) (i j : Nat) : Option R :=
